@@ -8,6 +8,9 @@
 #include "rkcommon/tasking/tasking_system_init.h"
 
 #include <atomic>
+#include <mutex>
+#include <thread>
+#include <unistd.h>
 #include <climits>
 #include <limits>
 #include <memory>
@@ -26,6 +29,18 @@ static void viol(const std::string &sig, const std::string &replay, const std::s
   if (vr::replaying())
     printf("VIOLATED %s :: %s\n", sig.c_str(), detail.c_str());
 }
+
+// "joined before returning" includes returning at all: vr::CaseWatch turns a call that does not come back
+// within the limit into a violation carrying the case's replay string (the remaining cases are not run)
+struct CaseGuard : vr::CaseWatch
+{
+  static std::string what(const std::string &rp)
+  {
+    const std::string kind = rp.substr(0, rp.find(':'));
+    return std::string(BACKEND) + "|" + (kind == "blk" ? "parallel_in_blocks_of" : kind == "each" ? "parallel_foreach" : kind == "nest" ? "nested parallel_for" : "parallel_for");
+  }
+  CaseGuard(const std::string &rp, double limit_s = 60) : vr::CaseWatch(what(rp), rp, limit_s) {}
+};
 
 template <typename I>
 struct Name;
@@ -62,6 +77,7 @@ static void one_for(long long n)
   if (!representable<I>(n))
     return;
   const long long cnt = n > 0 ? n : 0;
+  CaseGuard guard(std::string("for:") + Name<I>::n() + ":" + std::to_string(n));
   std::unique_ptr<std::atomic<unsigned char>[]> hits(new std::atomic<unsigned char>[cnt + 1]);
   for (long long i = 0; i <= cnt; i++)
     hits[i].store(0, std::memory_order_relaxed);
@@ -99,6 +115,7 @@ template <typename I>
 static void huge_for(unsigned long long n)
 {
   std::atomic<unsigned long long> calls(0), sum(0), stray(0);
+  CaseGuard guard(std::string("huge:") + Name<I>::n() + ":" + std::to_string(n), 3000);
   parallel_for((I)n, [&](I i) {
     calls.fetch_add(1, std::memory_order_relaxed);
     sum.fetch_add((unsigned long long)i, std::memory_order_relaxed);
@@ -127,6 +144,7 @@ static void one_blocks(long long n)
   for (long long i = 0; i <= cnt; i++)
     hits[i].store(0);
   std::atomic<long long> bad(0), nblocks(0);
+  CaseGuard guard(std::string("blk:") + Name<I>::n() + ":" + std::to_string(B) + ":" + std::to_string(n));
   parallel_in_blocks_of<B>((I)n, [&](I b, I e) {
     nblocks.fetch_add(1);
     long long lb = (long long)b, le = (long long)e;
@@ -157,6 +175,7 @@ static void one_nested(int outer, int inner)
   std::vector<std::atomic<int>> hits(outer * inner);
   for (auto &h : hits)
     h.store(0);
+  CaseGuard guard("nest:" + std::to_string(outer) + ":" + std::to_string(inner));
   parallel_for(outer, [&](int o) { parallel_for(inner, [&, o](int i) { hits[o * inner + i].fetch_add(1); }); });
   int wrong = 0;
   for (auto &h : hits)
@@ -175,6 +194,7 @@ static void one_nested(int outer, int inner)
 static void one_foreach(int n)
 {
   std::vector<int> v(n, 0);
+  CaseGuard guard("each:" + std::to_string(n));
   parallel_foreach(v, [&](int &x) { __atomic_fetch_add(&x, 1, __ATOMIC_RELAXED); });
   int wrong = 0;
   for (int x : v)
